@@ -6,6 +6,7 @@ dispatch steps on the calling thread instead of two daemon threads), VirtualTime
 the harness process by an object whose expiry is an explicit call)."""
 from __future__ import annotations
 
+import os
 import struct
 import threading
 import time
@@ -151,7 +152,17 @@ def make_hsms(mode="passive", sync=False, device_id=0, **kw):
     return proto, conn, log
 
 
+def scale():
+    """Stretch factor for time limits: the passes run real threads and sockets, on a loaded machine everything is slower.
+    1 on an idle machine, up to 10 when the run queue is far longer than the number of cores."""
+    try:
+        return max(1.0, min(10.0, os.getloadavg()[0] / max(1, os.cpu_count() or 1) * 1.5))
+    except OSError:  # pragma: no cover
+        return 1.0
+
+
 def wait_until(pred, timeout=3.0, step=0.002):
+    timeout = timeout * scale()
     t0 = time.time()
     while time.time() - t0 < timeout:
         if pred():
